@@ -66,7 +66,7 @@ class Tree:
 
     def op(self, res: CompResult) -> None:
         rng = self.rng
-        k = rng.choice(["create", "create", "modify", "touch", "rewrite", "delete", "rename", "mkdir", "rmdir", "rmtree", "noop"])
+        k = rng.choice(["create", "create", "modify", "touch", "subtouch", "rewrite", "delete", "rename", "mkdir", "rmdir", "rmtree", "noop"])
         fs = self.files()
         res.hit("fsop:" + k)
         if k == "create":
@@ -87,6 +87,17 @@ class Tree:
             p = rng.choice(fs)
             t = self.tick()
             os.utime(p, (t, t))
+        elif k == "subtouch" and fs:
+            # a same-size save within the same wall-clock second (editor save + formatter, `sed -i`): only the sub-second part of
+            # the modification time moves (milliseconds: well above the resolution of the float `st_mtime`)
+            p = rng.choice(fs)
+            st = p.stat()
+            new = (st.st_mtime_ns // 10**9) * 10**9 + rng.randrange(1, 1000) * 10**6
+            if new == st.st_mtime_ns:
+                new += 10**6
+            if rng.random() < 0.5:
+                p.write_text("s" * st.st_size)
+            os.utime(p, ns=(new, new))
         elif k == "rewrite" and fs:   # same size, same mtime: not a change
             p = rng.choice(fs)
             st = p.stat()
